@@ -197,6 +197,8 @@ class Interp:
             a, b = self.ev(e.body, env, d + 1), self.ev(e.orelse, env, d + 1)
             if b in (("const", ""), ("const", None)):
                 return ("or-empty" if b[1] == "" else "or-none", a)
+            if a in (("const", ""), ("const", None)):       # the same choice written the other way round: `None if absent else x`
+                return ("or-empty" if a[1] == "" else "or-none", b)
             return ("ifexp", a, b, ast.unparse(e.test))
         if isinstance(e, ast.UnaryOp) and isinstance(e.op, ast.Not):
             return ("not", self.ev(e.operand, env, d + 1))
@@ -644,7 +646,17 @@ def node_text_of(core, kind, tag):
     if kind == "etree":
         if core[0] != "text":
             return None if mentions(core, lambda t: t[:1] in (("?",), ("param",), ("call",), ("item",), ("elem",))) else False
-        finds = alternatives(core[1])
+        inner = core[1]
+        while isinstance(inner, tuple) and inner and inner[0] in NEUTRAL:     # `node if ... else None`: an absent node stays absent
+            inner = inner[1]
+        finds = []
+        for f in alternatives(inner):
+            while isinstance(f, tuple) and f and f[0] in NEUTRAL:
+                f = f[1]
+            if f not in (("const", None), ("unbound",)):
+                finds.append(f)
+        if not finds:
+            return None
         ok = True
         for f in finds:
             if f[0] != "find" or f[2][0] != "const" or not isinstance(f[2][1], str):
